@@ -12,7 +12,8 @@ import ast
 from typing import List, Set
 
 from fsa.escape import Escape
-from fsa.match import dotted, is_call, is_const, method_call, root_name
+from fsa.flow import PARAM
+from fsa.match import Unknown, dotted, is_call, is_const, method_call, root_name
 from fsa.effects import MUTATORS
 from fsa.source import Unsupported, iter_own_nodes, text
 from rules.common import Fn, module_bound_names
@@ -76,8 +77,14 @@ def r1_independent(R) -> None:
     ok = False
     if lp:
         tnames = {x.id for x in ast.walk(lp[-1].ast.target) if isinstance(x, ast.Name)}
-        ok = len(c.args) == 1 and not c.keywords and isinstance(c.args[0], ast.Name) and c.args[0].id in tnames \
+        ok = len(c.args) >= 1 and isinstance(c.args[0], ast.Name) and c.args[0].id in tnames \
             and f.lf.defs_reaching(n.id, c.args[0].id) == frozenset([lp[-1].id])
+        # further arguments: options of parse_model itself (the same for every statement), never state carried by the loop
+        params = set(f.fi.params())
+        for extra in list(c.args[1:]) + [k.value for k in c.keywords]:
+            names = {x.id for x in ast.walk(extra) if isinstance(x, ast.Name)}
+            fixed = all(nm in params and all(s_ == PARAM for (s_, _v) in f.lf.values_reaching(n.id, nm)) for nm in names)
+            ok = ok and (isinstance(extra, ast.Constant) or (bool(names) and fixed))
     R.check(ok, f.q, 'per-statement-argument:' + text(c), 'each statement is parsed from the loop variable alone (nothing carried between statements)',
             f'`{text(c)}`: the argument is not just the current statement', where=f.where(n))
     # no global / nonlocal writes in the parser call graph
@@ -139,14 +146,35 @@ def r2_comments_blanks(R) -> None:
         return
     lp = loops[0]
     it = lp.ast.iter
-    ok = is_call(it, 'map') and len(it.args) == 2 and text(it.args[0]) == 'strip_comments' and text(it.args[1]) == 'model.splitlines()'
-    if not ok:
-        # equivalent: first statement of the body rebinds the line through strip_comments
-        body0 = lp.ast.body[0]
-        ok = isinstance(body0, ast.Assign) and is_call(body0.value, 'strip_comments') and text(body0.targets[0]) == text(lp.ast.target) \
-            and text(it) == 'model.splitlines()'
+    tgt = text(lp.ast.target)
+    if is_call(it, 'enumerate') and isinstance(lp.ast.target, ast.Tuple) and len(lp.ast.target.elts) == 2 and isinstance(lp.ast.target.elts[1], ast.Name):
+        tgt = lp.ast.target.elts[1].id
+        it = it.args[0]
+    # which names hold the comment-free line inside the loop: the loop variable itself when the lines are mapped
+    # through strip_comments, else locals (the loop variable included, when rebound) defined as strip_comments(<raw line>)
+    mapped = is_call(it, 'map') and len(it.args) == 2 and text(it.args[0]) == 'strip_comments' and 'splitlines' in text(it.args[1])
+    stripped_defs = [n for n in f.cfg.nodes if n.kind == 'stmt' and lp.id in n.loops and isinstance(n.ast, ast.Assign) and len(n.ast.targets) == 1
+                     and isinstance(n.ast.targets[0], ast.Name) and is_call(n.ast.value, 'strip_comments') and len(n.ast.value.args) == 1
+                     and text(n.ast.value.args[0]) == tgt]
+    raw_uses = []
+    if not mapped:
+        for n in f.cfg.nodes:
+            if n.ast is None or lp.id not in n.loops or n.kind not in ('stmt', 'test', 'for'):
+                continue
+            roots = [n.ast.test] if n.kind == 'test' and hasattr(n.ast, 'test') else ([n.ast.iter] if n.kind == 'for' else [n.ast])
+            for root in roots:
+                wrapped = {id(y) for x in ast.walk(root) if is_call(x, 'strip_comments') for y in ast.walk(x)}
+                for x in ast.walk(root):
+                    if isinstance(x, ast.Name) and x.id == tgt and isinstance(x.ctx, ast.Load) and id(x) not in wrapped \
+                            and lp.id in f.lf.defs_reaching(n.id, tgt):
+                        raw_uses.append((n, x))
+    ok = mapped or (bool(stripped_defs) and not raw_uses)
+    why_bad = f'the line loop `for {tgt} in {text(it)[:50]}` does not strip comments from every line'
+    if raw_uses:
+        why_bad = f'`{raw_uses[0][0].label()[:60]}` reads the raw line `{tgt}` (comment included): text after `#` would be buffered or counted'
     R.check(ok, q, 'strip-every-line:' + text(it)[:50], 'comments are stripped from every physical line before buffering',
-            f'the line loop `for {text(lp.ast.target)} in {text(it)[:50]}` does not strip comments from every line', where=f.where(lp))
+            why_bad, where=f.where(raw_uses[0][0] if raw_uses else lp))
+    line_names = {tgt} if mapped else {text(d.ast.targets[0]) for d in stripped_defs}
     # strip_comments: cut at the first '#'
     sc_ = R.repo.func(q + '.<locals>.strip_comments')
     finds = [x for x in ast.walk(sc_.node) if method_call(x, 'find', 'index', 'partition', 'split') and x.args and is_const(x.args[0], '#')]
@@ -159,9 +187,8 @@ def r2_comments_blanks(R) -> None:
                 'the yield is not guarded by a non-blank test', where=f.where(ys[0]))
     # the buffer is reset after each complete statement
     # (the buffer is the list every line is appended to)
-    tv = text(lp.ast.target)
     bufs = {x.func.value.id for n in f.cfg.nodes if lp.id in n.loops and n.ast is not None and n.kind == 'stmt' for x in ast.walk(n.ast)
-            if method_call(x, 'append') and isinstance(x.func.value, ast.Name) and len(x.args) == 1 and text(x.args[0]) == tv}
+            if method_call(x, 'append') and isinstance(x.func.value, ast.Name) and len(x.args) == 1 and text(x.args[0]) in line_names}
     if len(bufs) != 1:
         raise Unsupported(f'{q}: the line buffer is not identified (lists the current line is appended to: {sorted(bufs)})')
     buf = sorted(bufs)[0]
@@ -172,37 +199,62 @@ def r2_comments_blanks(R) -> None:
 
 
 def r4_normalisation(R) -> None:
+    """The template every term is rendered into has been through the three whitespace passes, the collapse first.
+    Read on the *value* of the format() receiver (definitions and pure helpers read through), not on statement text."""
     q = f'{P}.parse_equation'
     f = Fn(R, q)
-    subs = []
-    for n in f.cfg.nodes:
-        a = n.ast
-        if n.kind == 'stmt' and isinstance(a, ast.Assign) and is_call(a.value, 're.sub') and len(a.value.args) == 3 \
-                and all(isinstance(x, ast.Constant) for x in a.value.args[:2]):
-            subs.append((n, a.value.args[0].value, a.value.args[1].value, a))
     want = [(r'\s+', ' ', 'runs of whitespace collapse to one space'), (r'\(\s+', '(', 'no space after an opening bracket'),
             (r'\s+\)', ')', 'no space before a closing bracket')]
-    pos = {}
-    for (pat, rep, why) in want:
-        hit = [(n, a) for (n, p_, r_, a) in subs if p_ == pat and r_ == rep]
-        if not hit:
-            # a subsuming pattern is unknown idiom, absence is a violation
-            similar = [p_ for (_n, p_, _r, _a) in subs]
-            R.violation(q, f'normalise-missing:{pat}', f'no normalisation pass `re.sub({pat!r}, {rep!r}, template)` ({why}); passes present: {similar}',
-                        where=f.fi.where)
-            continue
-        n, a = hit[0]
-        ok = text(a.targets[0]) == text(a.value.args[2])
-        R.check(ok, q, f'normalise-target:{pat}', f'{why}', f'`{text(a)}` does not rewrite the template in place', where=f.where(n))
-        pos[pat] = n
-    if len(pos) == 3:
-        first = pos[r'\s+']
-        R.check(all(first.id in f.dom[pos[p_].id] for p_ in (r'\(\s+', r'\s+\)')), q, 'normalise-order',
-                'whitespace is collapsed before the bracket passes', 'the bracket passes can run before the whitespace collapse', where=f.where(first))
-        # all before format
-        fm = [n for n in f.cfg.nodes if n.ast is not None and n.kind == 'stmt' and any(method_call(x, 'format') for x in ast.walk(n.ast))]
-        R.check(all(all(pos[p_].id in f.dom[m.id] for p_ in pos) for m in fm), q, 'normalise-before-format',
-                'the template is normalised before the terms are rendered into it', 'format() can run before normalisation', where=f.fi.where)
+    fm = []
+    for n in f.cfg.nodes:
+        if n.ast is not None and n.kind == 'stmt':
+            for x in ast.walk(n.ast):
+                if method_call(x, 'format') and not isinstance(x.func.value, ast.Constant):
+                    fm.append((n, x))
+    if not R.expect(q, len(fm), 1, 'format() calls rendering the terms into the template'):
+        return
+    # every re.sub pattern anywhere in the function (nested helpers included): tells "pass absent" from "pass elsewhere"
+    anywhere = {x.args[0].value for x in ast.walk(f.fi.node) if is_call(x, 're.sub') and x.args and isinstance(x.args[0], ast.Constant)}
+    for (n, call) in fm:
+        # walk the receiver's value back through its definitions: re.sub(p, r, <earlier value>) passes, outermost first
+        chain = []
+        cur, at = call.func.value, n.id
+        v = cur
+        for _ in range(12):
+            cur = f._inline_pure_calls(cur)
+            if is_call(cur, 're.sub') and len(cur.args) == 3:
+                chain.append((cur.args[0], cur.args[1]))
+                cur = cur.args[2]
+                continue
+            if isinstance(cur, ast.Name) and cur.id in f.lf.locals:
+                vals = f.lf.values_reaching(at, cur.id)
+                if len(vals) == 1 and vals[0][0] != PARAM and vals[0][1] is not None and isinstance(f.cfg.nodes[vals[0][0]].ast, (ast.Assign, ast.AnnAssign)):
+                    at, cur = vals[0][0], vals[0][1]
+                    v = cur
+                    continue
+            break
+        chain.reverse()
+        consts = [(a_.value, b_.value) for (a_, b_) in chain if isinstance(a_, ast.Constant) and isinstance(b_, ast.Constant)]
+        if len(consts) != len(chain):
+            raise Unknown(f'{q}: a normalisation pass of `{text(call.func.value)}` has a non-constant pattern')
+        order = {}
+        for (pat, rep, why) in want:
+            idx = [i for i, (p_, r_) in enumerate(consts) if p_ == pat and r_ == rep]
+            if idx:
+                order[pat] = idx[0]
+                R.ok(q, f'{why}: the template rendered by `{text(call)[:50]}` has been through re.sub({pat!r}, {rep!r}, .)')
+            elif pat in anywhere:
+                raise Unknown(f'{q}: re.sub({pat!r}, ...) exists but not on the value of `{text(call.func.value)}` at `{text(call)[:50]}` '
+                              f'(value read: `{text(v)[:80]}`)')
+            else:
+                R.violation(q, f'normalise-missing:{pat}', f'no normalisation pass `re.sub({pat!r}, {rep!r}, template)` ({why}); passes applied to the '
+                            f'template: {[p_ for p_, _r in consts]}', where=f.fi.where)
+        if len(order) == 3:
+            R.check(order[r'\s+'] < min(order[r'\(\s+'], order[r'\s+\)']), q, 'normalise-order',
+                    'whitespace is collapsed before the bracket passes', 'the bracket passes run before the whitespace collapse', where=f.where(n))
+        extra = [(p_, r_) for (p_, r_) in consts if (p_, r_) not in [(a_, b_) for (a_, b_, _w) in want]]
+        if extra:
+            raise Unknown(f'{q}: further rewriting of the template {extra} not in the idiom table')
 
 
 def run(R) -> None:
